@@ -89,7 +89,7 @@ class Runner:
         force = getattr(fast, "_verif_rng_force", None) if self.pin_ids else None
         for i, act in enumerate(history):
             self.step_no = i
-            if force is not None and act[0] not in ("set_keys", "set_keys_bad", "discover", "reply", "timeout"):
+            if force is not None and act[0] not in ("set_keys", "set_keys_bad", "discover", "reply", "timeout", "sleep"):
                 force([0x12345678, 0x23456789])  # request-id, msgID: fixed width
             try:
                 self.step(act)
@@ -106,6 +106,11 @@ class Runner:
         w = s.w
         if kind == "discover":
             return self.discover(s, act[2] if len(act) > 2 else 0)
+        if kind == "sleep":
+            import time as _time
+
+            _time.sleep(act[2])  # real time passes; the session must not let it leak into what it sends
+            return
         if kind == "set_keys":
             eid, user, a_alg, a_key, p_alg, p_key = s.cfg.raw_args(s.model.engine_id or s.cfg.engine_id)
             force = getattr(fast, "_verif_rng_force", None)
@@ -177,6 +182,8 @@ class Runner:
                 stray = w.take_request(wait=0.002)
                 if stray is not None:
                     self.bad("size", "oversize request raised but %d octets were sent" % len(stray))
+                else:
+                    self.trace.append({"s": self.sessions.index(s), "inst": s.installation, "kind": "refused", "salt": None, "flags": None, "boots": None, "size": 0, "pad": None})
                 return
             self.api_calls += 1
             if out.kind != "ok":
@@ -274,6 +281,27 @@ class Runner:
                     return
                 vb = [((1, 3, 6, 1, 6, 3, 15, 1, 1, 2, 0), values.v_unsigned("counter32", 9).tlv)]
                 rep = drivers.reply_for(s.cfg, req, vb, pdu_tag=rb.PDU_REPORT, boots=boots, time=time, flags=0)
+            elif how == "partial":
+                # authentic reply whose ciphertext is 8m+k octets: the last k octets of the (well-formed) scoped PDU
+                # were never encrypted by the agent - whatever the client would "decrypt" there was not sent
+                k = act[3]
+                oid = req.oids[0] + (1,) if req.oids else (1, 3, 6, 1, 2, 1, 1, 1, 0)
+                n = 24
+                while True:
+                    pdu = rb.build_pdu(rb.PDU_RESPONSE, req.request_id, 0, 0, [(oid, rb.enc_octets(b"p" * n))])
+                    scoped = rb.build_scoped(req.engine_id or s.cfg.engine_id, b"", pdu)
+                    if len(scoped) % 8 == k:
+                        break
+                    n += 1
+                rep = drivers.seal_reply(s.cfg, req.msg_id, req.engine_id or s.cfg.engine_id, req.boots, req.time, scoped, partial_tail=k)
+                w.inject(rep)
+                out = w.recv(op, s.last_iter)
+                self.api_calls += 1
+                if out.kind == "ok":
+                    self.bad("reply", "a reply whose ciphertext ends in %d octets belonging to no cipher block was delivered: %r" % (k, out.brief()))
+                elif out.is_panic():
+                    self.bad("reply", "partial-block reply raised %s" % out.exc_name)
+                return
             elif how == "octets":
                 oid = req.oids[0] + (1,) if req.oids else (1, 3, 6, 1, 2, 1, 1, 1, 0)
                 payload = bytes((i * 7 + 3) & 0xFF for i in range(act[3]))
